@@ -2,7 +2,7 @@
    Statements only; proofs in Algebra/ and Proofs/RegressionP.v. *)
 From Coq Require Import ZArith List Bool QArith Qcanon Permutation String.
 From TE Require Import Base.Val Base.Nd Base.Xq Algebra.Metric Algebra.MergeTree Algebra.Cache Algebra.Pool
-  Models.Aggregation Models.Aggregation2 Models.Regression Models.Stat Proofs.RegressionP.
+  Models.Aggregation Models.Aggregation2 Models.Regression Models.Stat Proofs.RegressionP Proofs.CovP.
 Import ListNotations.
 Open Scope list_scope.
 Open Scope Qc_scope.
@@ -56,9 +56,19 @@ Example cov_chan_tree :
   cov_out_val (cmp cov_metric 2%nat (run cov_metric 2%nat (Shard cov_metric [ex_r1 ++ ex_r2]))).
 Proof. vm_compute. reflexivity. Qed.
 
+(* Covariance (Chan's identity): merging a non-empty shard (and any fresh shards) into a non-empty shard gives
+   exactly the state of the single instance that saw both streams, hence the same mean / covariance *)
+Theorem cov_merge_eq_single : forall d a al b bl,
+  Forall (fun b => rows_ok d b = true /\ b <> []) (a :: al) -> Forall (fun b => rows_ok d b = true /\ b <> []) (b :: bl) ->
+  mrg cov_metric d (fold_left (upd cov_metric d) (a :: al) (init cov_metric d))
+      [init cov_metric d; fold_left (upd cov_metric d) (b :: bl) (init cov_metric d); init cov_metric d]
+  = fold_left (upd cov_metric d) ((a :: al) ++ (b :: bl)) (init cov_metric d).
+Proof. exact cov_merge_shards. Qed.
+
 Print Assumptions max_any_sharding.
 Print Assumptions min_any_sharding.
 Print Assumptions cat_merge_tree_eq_single.
 Print Assumptions throughput_merge.
 Print Assumptions mse_adoption_path.
 Print Assumptions cov_chan_tree.
+Print Assumptions cov_merge_eq_single.
